@@ -5,6 +5,7 @@ package vsync
 
 import (
 	"sync"
+	"sync/atomic"
 
 	"verif/lib/sched"
 )
@@ -33,7 +34,27 @@ func (m *Mutex) Unlock() {
 	m.real.Unlock()
 }
 
-type Once = sync.Once
+// Once is a sync.Once whose waiting is visible to the scheduler (built on the Mutex above).
+type Once struct {
+	done uint32
+	m    Mutex
+}
+
+func (o *Once) Do(f func()) {
+	if atomic.LoadUint32(&o.done) == 0 {
+		o.doSlow(f)
+	}
+}
+
+func (o *Once) doSlow(f func()) {
+	o.m.Lock()
+	defer o.m.Unlock()
+	if o.done == 0 {
+		defer atomic.StoreUint32(&o.done, 1)
+		f()
+	}
+}
+
 type WaitGroup = sync.WaitGroup
 type RWMutex = sync.RWMutex
 type Pool = sync.Pool
